@@ -638,4 +638,10 @@ theorem roundtrip_nested (S : Schema) (hS : SchemaOK S) (fast : Bool) (i : Nat) 
     simp only [decodeMsgN, hall, canon_completeN S (S.md i) fs ops hwf ho]
     simp
 
+/-- the length bound in `WFv` can be checked on the computed size -/
+theorem recs_len_eq_size (S : Schema) (md : MD) (fs : List F) (ops : List EncOp) (hok : OKFields S md fs)
+    (hcl : CleanFs fs) (ho : opsFields S md fs = .ok ops) :
+    (wiresN (recsFields S 0 md fs)).length = sizeFields S md fs := by
+  rw [← ops_recsFields S 0 md fs ops hok hcl ho, (fields_exact S md fs ops hok ho).1]
+
 end Csproto.Gen
